@@ -86,7 +86,11 @@ TFinal == /\ Is("Final")
                   /\ finalN' = Ev.n
           /\ UNCHANGED <<done, bind, sbind, rstate>> /\ l' = l + 1
 
-Next == TCfg \/ TNew \/ TBegin \/ TIter \/ TEnd \/ TReload \/ TRollback \/ TFinal
+\* growth: a checkpoint made from an empty stream is the (reproducible) default checkpoint without results
+TEmptyStream == /\ Is("EmptyStream") /\ Ev.equal = 1 /\ Ev.n = 0
+                /\ UNCHANGED <<done, bind, sbind, finalN, rstate>> /\ l' = l + 1
+
+Next == TEmptyStream \/ TCfg \/ TNew \/ TBegin \/ TIter \/ TEnd \/ TReload \/ TRollback \/ TFinal
 Spec == Init /\ [][Next]_vars
 TraceAccepted == TraceAcceptedBy(TraceLen)
 =============================================================================
